@@ -1,11 +1,13 @@
 \* sanity: generic programs with shadowed error variables MUST violate NoOpenTxAtReturn
 CONSTANTS
   DEV_CredUpsertShadowedErr = FALSE
+  DEV_PgCredUpsertShadowedErr = FALSE
   DEV_UsersCreateCompensates = FALSE
   DEV_TopicsCreateTwoTx = FALSE
   DEV_DeleteListThreeTx = FALSE
   Universe = "generic"
   MaxStmts = 1
+  Dialect = "mysql"
   GenShadow = TRUE
 SPECIFICATION Spec
 INVARIANTS InvNoOpenTxAtReturn
